@@ -69,7 +69,7 @@ Holds(s, t) ==
 \* C06: validity gates rendering
 ValidGatesString(s) == LET o == CObs(s) IN (o.str = "") <=> (o.valid = "err")
 ValidDef(s) == (s.live /\ s.vpol = "none") =>
-                 (ValidOK(s) <=> (s.kw # "" /\ s.op # "none" /\ (s.op \in Builtin \/ s.op \in {"user", "emptyctx"}) /\ s.ex # "nil"))
+                 (ValidOK(s) <=> (s.kw # "" /\ s.op # "none" /\ (s.op \in Builtin \/ s.op \in {"user", "userB", "eqB", "emptyctx"}) /\ s.ex # "nil"))
 
 \* C09: read-only frame for Conditions
 CROFrame(s, t) ==
